@@ -36,11 +36,11 @@ CHECKS['C14'] = dict(
     src='checks/c14_writers.cpp',
     runs=[dict(cfg='asan')],
     technique='explicit-state BFS to a fixpoint over (writer private state, buffer bytes, reference vector) plus small-scope exhaustive products for prefixes, stream copies and open flags',
-    level_text='MemoryWriter: all histories of any length over Write/typed writes/Seek* with boundary arguments (0,1,rem-1,rem,rem+1,len,2^31,2^32,2^63,2^64-pos,2^64-1) on exact-size heap buffers of length 0..4 (quick) / 0..6 (thorough), explored to a fixpoint with position, length and the complete buffer compared to a reference vector after every edge (ASan catches any byte written outside). DynamicMemoryWriter: same with the content length capped. Size prefixes: every prefix type x sizes {0,1,2,max-1,max,max+1,max+2} x three container types, refusal iff too large, exact little-endian encoding, Read<S> is the inverse. Stream copy: full product of 8 chunk sizes x 21+ source lengths around every chunk boundary x start positions x 5 reader backends x 3 writer kinds. FileWriter: all 16 flag values x file exists/absent x directory exists/absent, disk content compared.',
+    level_text='MemoryWriter: all histories of any length over Write/typed writes/Seek* with boundary arguments (0,1,rem-1,rem,rem+1,len,2^31,2^32,2^63,2^64-pos,2^64-1) on exact-size heap buffers of length 0,1,2,4 (quick) / 0..5 (thorough), explored to a fixpoint with position, length and the complete buffer compared to a reference vector after every edge (ASan catches any byte written outside). DynamicMemoryWriter: same with the content length capped. Size prefixes: every prefix type x sizes {0,1,2,max-1,max,max+1,max+2} x three container types, refusal iff too large, exact little-endian encoding, Read<S> is the inverse. Stream copy: full product of 8 chunk sizes x 21+ source lengths around every chunk boundary x start positions x 5 reader backends x 3 writer kinds. FileWriter: all 16 flag values x file exists/absent x directory exists/absent, disk content compared.',
     level_note='Trusts g++/libstdc++/ASan, tmpfs. Weaker readings: a refused size-prefixed write may already have emitted the prefix; for open modes with neither Truncate nor Append only the existence rules are asserted; directory creation as a side effect of a refused open is not judged.',
     rule='case = one BFS (buffer length) or one product family; states = distinct product states; transitions = writer operations executed and compared',
     bounds={'quick': 'MemoryWriter n in {0,1,2,4} fixpoint; DynamicMemoryWriter length cap 4 (with and without preallocation); copy chunk sizes {1,2,3,4,7,8,16,131072}',
-            'thorough': 'MemoryWriter n in {0,1,2,4,5,6} fixpoint; DynamicMemoryWriter cap 6; rest as quick'},
+            'thorough': 'MemoryWriter n in {0,1,2,3,4,5} fixpoint; DynamicMemoryWriter cap 6; rest as quick'},
     must_hit={'any': ['memwriter/write-fits', 'memwriter/write-wraps', 'memwriter/write-too-big', 'memwriter/seek-fits', 'memwriter/seek-refused', 'dynwriter/append', 'dynwriter/write-wraps',
                       'dynwriter/zero-fill', 'dynwriter/truncate', 'dynwriter/refusals', 'prefix/too-large-refused', 'prefix/fits', 'typed/inverse', 'copy/multi-chunk', 'copy/single-chunk',
                       'filewriter/invalid-flags', 'filewriter/existing-not-allowed', 'filewriter/new-not-allowed', 'filewriter/truncate-or-new', 'filewriter/append-existing']},
@@ -97,6 +97,20 @@ CHECKS['C02'] = dict(
     bounds={'quick': 'C01 quick file sets; conforming archives: deviation<=2 over 7 layout dimensions', 'thorough': 'C01 thorough file sets; deviation<=3'},
     must_hit={'any': ['written/strict-decodes', 'conforming/stored-members', 'conforming/lzh-members', 'conforming/unsupported-kind-members', 'conforming/with-unused-slots', 'conforming/with-extra-name-padding']},
     assumptions=['index size field of an LZH member = decoded length; VBLK length = stored length'],
+)
+
+CHECKS['C03'] = dict(
+    src='checks/c03_clm.cpp',
+    runs=[dict(cfg='asan')],
+    technique='small-scope exhaustive enumeration of WAV sets x every list order on the real packer/reader, against an independent RIFF builder/parser and CLM layout decoder',
+    level_text='Every single WAV over 7 base names x 6 data lengths x all 16 chunk layouts (extra chunk before fmt / between fmt and data / after data, fmt size 16 or 18), every pair over 21 name pairs x 6x6 lengths x 8x8 layouts (thorough 16x16), every name triple with 4 (thorough 24) variants per member, lengths around the 128 KiB copy chunk and a 12-track set, in three common formats, two extension spellings and three directories, is packed with ClmFile::CreateArchive in every list order. The raw CLM bytes must decode under the independent layout description (version string, common format with cbSize 0, constant bytes, count, zero-padded names in case-insensitive order, offsets contiguous from 60+16k, file ends with the last data), the reopened archive must list, size, stream and extract exactly each data chunk, and every extracted file must parse as a self-consistent canonical WAV with the common format. Twelve families of invalid inputs (bad tags, RIFF size mismatch, any differing format field, 9-character names, duplicate names ignoring case, data length beyond the file, non-WAV bytes, missing input) must be refused in both list orders.',
+    level_note='Trusts ref_wav and the 40-line CLM decoder in the harness, g++/ASan/UBSan, tmpfs. Odd-length data followed by another chunk gets the RIFF pad byte. Sets of 4+ tracks are represented by one 12-track set only.',
+    rule='state = one WAV set; transitions = CreateArchive calls and member interrogations',
+    bounds={'quick': 'k=1 full (672); k=2: 21 pairs x 36 lengths x 64 layouts; k=3: 35 triples x 64 variants; big lengths; 12-track set; 12 refusal families',
+            'thorough': 'k=2: 21 pairs x 36 x 256; k=3: 35 triples x 13824 variants'},
+    must_hit={'any': ['interrogations', 'orders/identical-archives', 'layout/chunk-after-data', 'layout/chunk-before-fmt', 'layout/chunk-between', 'layout/fmt-16',
+                      'refusal/bad-riff-tag', 'refusal/riff-size-mismatch', 'refusal/format-mismatch', 'refusal/name-too-long', 'refusal/duplicate-names-ignoring-case', 'refusal/data-length-beyond-file']},
+    assumptions=['base names are letters, digits and underscores (as the property states)'],
 )
 
 NOT_APPLICABLE = {}
